@@ -70,11 +70,26 @@ theorem exSmall_ok : DsOk exSmall := by
   rcases hx with rfl | rfl <;> exact ⟨by decide, by decide, rfl⟩
 
 theorem exSmall_guard : Guard exSmall := by
-  refine ⟨⟨?_, by decide, by unfold NoDot; decide, by decide, by decide⟩, ⟨trivial, trivial⟩, ?_⟩
+  refine ⟨⟨?_, by decide, by unfold NoDot; decide, (by intro e h; cases h), by decide⟩, ⟨trivial, trivial⟩, ?_⟩
   · show (VarsG [_] ∧ _) ∧ True
     refine ⟨⟨⟨⟨by decide, rfl⟩, trivial⟩, by decide⟩, trivial⟩
   · show (AttrsDeep _ ∧ VarsDeep [_]) ∧ True
     exact ⟨⟨⟨trivial, trivial⟩, ⟨⟨by show 2 ≤ 2; decide, trivial⟩, trivial⟩⟩, trivial⟩
+
+/-- keep-around over a whole tree: a Grid with the plain attribute `x = ""` named like its member `x`, and a plain
+    global attribute named like the dataset -/
+def wKeep : Dataset := ⟨"d".toList, [("d".toList, .sc (.str "ab".toList))],
+  [Var.mk .grid "g".toList [("x".toList, .sc (.str []))] [Var.mk .base "arr".toList [] [], Var.mk .base "x".toList [] []]]⟩
+
+theorem wKeep_guard : Guard wKeep := by
+  refine ⟨⟨?_, by decide, by unfold NoDot; decide, ?_, by decide⟩, ⟨trivial, trivial⟩, ⟨⟨trivial, trivial⟩, trivial⟩⟩
+  · refine ⟨⟨by decide, ?_⟩, trivial⟩
+    intro m hm
+    simp only [List.mem_cons, List.not_mem_nil, or_false] at hm
+    rcases hm with rfl | rfl
+    · exact ⟨rfl, by intro e h; cases h⟩
+    · exact ⟨rfl, by intro e h; cases h⟩
+  · intro e h; cases h
 
 def exDs : Dataset :=
   ⟨"d".toList,
